@@ -67,6 +67,7 @@ var (
 	FlagReplay = flag.String("replay", "", "replay artefact to re-execute")
 	FlagShard  = flag.String("shard", "", "i/n (internal: worker mode)")
 	FlagOut    = flag.String("out", "", "internal: shard result file")
+	FlagSkip   = flag.String("skip", "", "internal: comma-separated case indices to skip (they crashed an earlier worker)")
 )
 
 func envOr(k, d string) string {
